@@ -212,3 +212,39 @@ fn idx_reach_witness() {
     std::mem::forget(r);
     std::mem::forget(a);
 }
+
+// ---------------------------------------------------------------- util (C13: column removal kernel)
+// `remove_many` drops the free-variable columns from the variable list, the objective and every row of the standard
+// form. For a 5-element f64 vector (the instantiation used for coefficients; names use the String one, not run) and
+// ANY two indexes (any usize, equal or not, in range or not): exactly the elements at the listed positions disappear,
+// the others keep their order.
+#[kani::proof]
+#[kani::unwind(7)]
+fn util_remove_many_f64() {
+    let src = [10.0f64, 11.0, 12.0, 13.0, 14.0];
+    let mut v = src.to_vec();
+    let i0: usize = kani::any();
+    let i1: usize = kani::any();
+    crate::utils::remove_many(&mut v, &[i0, i1]);
+    let mut k = 0usize;
+    let mut j = 0usize;
+    while j < 5 {
+        if j != i0 && j != i1 {
+            assert!(k < v.len() && v[k] == src[j]);
+            k += 1;
+        }
+        j += 1;
+    }
+    assert!(v.len() == k);
+}
+#[kani::proof]
+#[kani::unwind(7)]
+fn util_reach_witness() {
+    let mut v = [10.0f64, 11.0, 12.0, 13.0, 14.0].to_vec();
+    let i0: usize = kani::any();
+    let i1: usize = kani::any();
+    crate::utils::remove_many(&mut v, &[i0, i1]);
+    if v.len() == 3 {
+        assert!(false); // must be reported FAILED
+    }
+}
